@@ -74,7 +74,7 @@ def check_doc(ids, acc, case=None):
         lib = bibtexparser.parse_string(text)
         ref_lib = bibtexparser.parse_string(text, parse_stack=[RemoveEnclosingMiddleware()])
     except Exception as e:
-        acc.raised[type(e).__name__] += 1
+        acc.exception(e, case, "parse_string", size=len(ids))
         return
     acc.step(("doc", text), "parse", tuple(canon(b) for b in lib.blocks))
 
